@@ -164,6 +164,11 @@ class BuiltinMixin(object):
     for s, a in self.resolve(st, args[0]):
       for s2, a2 in self.resolve_type(s, a):
         b = args[1]
+        if isinstance(a2, VCallable) and isinstance(b, VClass):
+          # an opaque user class: whether it derives from b is a fixed, unknown fact about that class
+          nm = b.cls.name if hasattr(b.cls, 'name') else str(b.cls)
+          out.append((s2, VBool(z3.Function('is_subclass_of_' + nm.split('.')[-1], z3.IntSort(), z3.BoolSort())(a2.t))))
+          continue
         if not isinstance(a2, VClass) or not isinstance(b, VClass):
           raise Unsupported('issubclass on %r, %r' % (a2, b))
         if isinstance(a2.cls, ClassInfo):
